@@ -4,10 +4,14 @@ package recordstore
 
 import (
 	"os"
+	"path/filepath"
+	"regexp"
 	"sort"
 	"strings"
 	"testing"
 	"time"
+
+	"github.com/bluenviron/mediamtx/internal/conf"
 )
 
 // ---- generators shared by the C26 driver (formats, names, instants) ---------------------
@@ -418,6 +422,176 @@ func vC26ZoneCases(out *vOut, r *vRand, locs []*time.Location, y0, y1 int, step,
 	}
 }
 
+// ---- the finder on a real directory tree (segment.go) -----------------------------------
+
+// record paths as they appear in configurations: relative (to the working directory) and absolute, clean and
+// not clean (".", "..", doubled slashes in the literal part), %path as whole directories, glued to literals, first
+var vC26FindFormats = []string{
+	"./recordings/%path/%Y-%m-%d_%H-%M-%S-%f", "./recordings/%path/%Y-%m-%d_%H-%M-%S-%f", "recordings/%path/%Y/%m/%d/%H-%M-%S-%f",
+	"rec/%Y-%m-%d/%path/%H-%M-%S-%f", "%path/%s_%f", "%path_%s-%f", "rec/x%path/%s-%f", "rec/%path.d/%s-%f",
+	"./a//b/../recordings/%path/%Y-%m-%d_%H-%M-%S-%f", "rec/./%path/%s-%f", "r//%path/%Y%m%d-%H%M%S-%f%z", "../up/%path/%s",
+	"rec/%path/seg_%Y-%m-%d_%H-%M-%S",
+}
+
+// valid path names: clean ones and every shape conf.IsValidPathName admits that filepath.Clean alters
+// (runs of slashes; "." / ".." elements are rejected by IsValidPathName, dots inside elements are not)
+func vC26FindName(r *vRand) string {
+	switch k := r.Intn(10); {
+	case k < 3:
+		return vPick(r, []string{"cam1", "site/cam1", "a/b", "a/b/c", "my.path-x_y", "9/8/7", "a.b/..c", "...", ".a/b.", "x"})
+	case k < 6:
+		return vPick(r, []string{"site//cam1", "a//b", "a///b", "a//b//c", "a/b//c", "x//y/z", "..a//b..", "9//8", "a////b"})
+	default:
+		ne := 1 + r.Intn(3)
+		var sb strings.Builder
+		for i := 0; i < ne; i++ {
+			if i > 0 {
+				sb.WriteString(strings.Repeat("/", 1+r.Intn(3)*r.Intn(2)))
+			}
+			sb.WriteString(vPick(r, []string{"a", "b", "cam", "c1", "x.y", "..z", "s_1", "-", "2024", "Z"}))
+		}
+		return sb.String()
+	}
+}
+
+func vC26Squeeze(s string) string {
+	for strings.Contains(s, "//") {
+		s = strings.ReplaceAll(s, "//", "/")
+	}
+	return s
+}
+
+func vC26FindCase(t *testing.T, r *vRand, out *vOut, root string, idx int) {
+	dir := filepath.Join(root, "f"+cqU(uint64(idx)), "w", "d")
+	if err := os.MkdirAll(dir, 0o755); err != nil {
+		t.Fatal(err)
+	}
+	if err := os.Chdir(dir); err != nil {
+		t.Fatal(err)
+	}
+	cwd, _ := os.Getwd()
+	os.MkdirAll("a/b", 0o755) //nolint:errcheck // the kernel resolves "a//b/.." physically: the directory has to exist
+	loff := vPick(r, vC26NiceOffs[:12])
+	time.Local = time.FixedZone("vlocal", loff)
+	f := vPick(r, vC26FindFormats)
+	if idx < len(vC26FindFormats) {
+		f = vC26FindFormats[idx]
+	}
+	if r.Chance(1, 4) {
+		f = cwd + "/" + f // absolute, still not cleaned
+	}
+	format, ext := conf.RecordFormatFMP4, ".mp4"
+	if r.Chance(1, 4) {
+		format, ext = conf.RecordFormatMPEGTS, ".ts"
+	}
+	// names: a few, with aliases (same elements, other slash runs) in the same tree
+	var names []string
+	for len(names) < 2+r.Intn(3) {
+		nm := vC26FindName(r)
+		names = append(names, nm)
+		if r.Chance(1, 3) {
+			if sq := vC26Squeeze(nm); sq != nm {
+				names = append(names, sq)
+			} else if i := strings.Index(nm, "/"); i > 0 {
+				names = append(names, nm[:i]+"/"+nm[i:])
+			}
+		}
+	}
+	type wr struct {
+		name     string
+		unix, ns int64
+	}
+	var written []wr
+	var wcq []string
+	var wdesc []any
+	for _, nm := range names {
+		if conf.IsValidPathName(nm) != nil {
+			t.Fatalf("generator produced an invalid name %q", nm)
+		}
+		for j := 0; j < 1+r.Intn(3); j++ {
+			unix, ns := 946684800+int64(r.U64()%1300000000), vC26Ns(r)
+			// the recorder: Path{Start: ntp in time.Local}.Encode(PathAddExtension(ReplaceAll(pathFormat, "%path", name)))
+			rp := PathAddExtension(strings.ReplaceAll(f, "%path", nm), format)
+			fp := Path{Start: time.Unix(unix, ns)}.Encode(rp)
+			if _, err := os.Lstat(fp); err == nil {
+				continue
+			}
+			if err := os.MkdirAll(filepath.Dir(fp), 0o755); err != nil {
+				t.Fatal(err)
+			}
+			if err := os.WriteFile(fp, []byte{0}, 0o644); err != nil {
+				t.Fatal(err)
+			}
+			written = append(written, wr{nm, unix, ns})
+			wcq = append(wcq, "("+cqBytes(nm)+", "+cqZ(unix)+", "+cqZ(ns)+")")
+			wdesc = append(wdesc, map[string]any{"path": nm, "unix": unix, "ns": ns, "file": fp})
+		}
+	}
+	// the name asked for: mostly one that was written, sometimes an alias of it, sometimes one never written
+	q := vPick(r, names)
+	aliasKind := "written"
+	switch k := r.Intn(8); {
+	case k == 0:
+		q, aliasKind = vC26Squeeze(q), "squeezed"
+	case k == 1:
+		if i := strings.Index(q, "/"); i > 0 {
+			q, aliasKind = q[:i]+"/"+q[i:], "slash-doubled"
+		}
+	case k == 2:
+		q, aliasKind = vC26FindName(r), "fresh"
+	}
+	pc := &conf.Path{Name: q, RecordPath: f, RecordFormat: format}
+	segs, err := FindSegments(pc, q, nil, nil)
+	var fcq []string
+	var fdesc []any
+	for _, s := range segs {
+		fcq = append(fcq, cqPair(cqZ(s.Start.Unix()), cqZ(int64(s.Start.Nanosecond()))))
+		fdesc = append(fdesc, map[string]any{"unix": s.Start.Unix(), "ns": s.Start.Nanosecond(), "file": s.Fpath})
+	}
+	errs := ""
+	if err != nil {
+		errs = err.Error()
+	}
+	has := fixedPathHasSegments(pc)
+	lm := regexpPathFindPathsWithSegments(&conf.Path{Name: "all_others", Regexp: regexp.MustCompile("^.*$"), RecordPath: f, RecordFormat: format})
+	var listed []string
+	for k := range lm {
+		listed = append(listed, k)
+	}
+	sort.Strings(listed)
+	var lcq []string
+	for _, l := range listed {
+		lcq = append(lcq, cqBytes(l))
+	}
+	nmine, unclean := 0, q != vC26Squeeze(q)
+	for _, w := range written {
+		if vC26Squeeze(w.name) == vC26Squeeze(q) {
+			nmine++
+		}
+		if w.name != vC26Squeeze(w.name) {
+			unclean = true
+		}
+	}
+	class := "find-clean-names"
+	if unclean {
+		class = "find-slash-runs"
+	}
+	if q != vC26Squeeze(q) {
+		class = "find-query-slash-runs"
+	}
+	switch {
+	case nmine == 0:
+		class += "-none"
+	case len(segs) == nmine:
+		class += "-all-found"
+	default:
+		class += "-MISSING"
+	}
+	out.Case(cqApp("Find", cqZ(int64(loff)), cqBytes(cwd), cqBytes(f), cqBytes(ext), cqBytes(q), cqList(wcq), cqList(fcq), cqBool(has), cqList(lcq)),
+		map[string]any{"kind": "find", "cwd": cwd, "recordPath": f, "ext": ext, "local_offset": loff, "written": wdesc, "asked": q, "asked_is": aliasKind,
+			"found": fdesc, "error": errs, "fixedPathHasSegments": has, "regexp_listed": listed}, class, len(segs) > 0)
+}
+
 func TestVerifC26(t *testing.T) {
 	r := vNewRand(vSeed())
 	out := vOpenOut()
@@ -475,6 +649,32 @@ func TestVerifC26(t *testing.T) {
 			return vPick(r, cands).when + int64(r.Intn(6*3600)) - 3*3600
 		}
 		return 883612800 + int64(r.U64()%1167609600)
+	}
+
+	// the finder on a real tree: n/30 cases (every record path shape once, then random), before the name cases
+	{
+		root := os.Getenv("VERIF_WORK")
+		if root == "" {
+			root = t.TempDir()
+		}
+		root = filepath.Join(root, "c26find")
+		os.RemoveAll(root) //nolint:errcheck
+		if err := os.MkdirAll(root, 0o755); err != nil {
+			t.Fatal(err)
+		}
+		if rr, err := filepath.EvalSymlinks(root); err == nil {
+			root = rr
+		}
+		wd0, _ := os.Getwd()
+		nfind := n / 30
+		if nfind < len(vC26FindFormats)+8 {
+			nfind = len(vC26FindFormats) + 8
+		}
+		for i := 0; i < nfind; i++ {
+			vC26FindCase(t, r, out, root, i)
+		}
+		os.Chdir(wd0)      //nolint:errcheck
+		os.RemoveAll(root) //nolint:errcheck
 	}
 
 	for i := 0; i < n; i++ {
